@@ -40,6 +40,9 @@ def main():
             und = [l.strip() for l in r.stdout.splitlines() if "undecided" in l or "vacuous" in l or "missing" in l]
             expect = m.get("expect", "caught")
             got = "caught" if any(b.startswith("refuted") for b in bad) else ("undecided" if (und or bad) else "green")
+            if "Traceback" in r.stdout + r.stderr or ": crash" in r.stdout or not r.stdout.strip():
+                got = "CRASH"
+                und = [l for l in (r.stdout + r.stderr).splitlines() if "Error" in l][-1:]
             flag = "OK " if got == expect else "!! "
             print(f"{flag}{m['name']}: expect={expect} got={got} {bad[:2]} {und[:1]}")
             shutil.rmtree(d)
